@@ -295,6 +295,51 @@ fn run_case(target: &str, seed: u64, len: usize) -> (String, String) {
             let (_sig, rb2) = s.into_parts();
             rec!(rb2.len(), pending);
         }
+        t if t.starts_with("Branch") || t == "Signal::fork" => {
+            // a pseudo-random interleaving of A/B pulls whose lead never exceeds the capacity
+            let cap = 1 + (seed % 3) as usize;
+            let total = len + 6;
+            let data: Vec<F2> = (0..total).map(|i| [i as i16 + 1, -(i as i16) - 1]).collect();
+            let (sa, ca) = src(data.clone());
+            let rb = ring_buffer::Bounded::from(vec![[0i16; 2]; cap]);
+            let rc = t.contains("Rc");
+            let (mut pa, mut pb) = (0usize, 0usize);
+            let mut sched: Vec<bool> = vec![];
+            for _ in 0..(2 * len + 4) {
+                let want_a = rng.next() % 2 == 0;
+                let a_ok = pa + 1 <= pb + cap; let b_ok = pb + 1 <= pa + cap;
+                let pick_a = if want_a { a_ok } else { !b_ok };
+                sched.push(pick_a);
+                if pick_a { pa += 1 } else { pb += 1 }
+            }
+            let (mut pa, mut pb) = (0usize, 0usize);
+            macro_rules! drive { ($a:ident, $b:ident) => {{
+                for &pick_a in sched.iter() {
+                    rec!(($a.pending_frames(), $b.pending_frames()), (pa.max(pb) - pa, pa.max(pb) - pb));
+                    if pick_a { rec!($a.next(), at(&data, pa)); pa += 1; } else { rec!($b.next(), at(&data, pb)); pb += 1; }
+                    rec!(ca.get(), pa.max(pb));
+                }
+            }}; }
+            if rc {
+                let (mut a, mut b) = sa.fork(rb).by_rc();
+                drive!(a, b);
+            } else {
+                let mut fork = sa.fork(rb);
+                {
+                    let (mut a, mut b) = fork.by_ref();
+                    drive!(a, b);
+                }
+                // re-split after earlier use
+                let (mut a, mut b) = fork.by_ref();
+                let k = sched.len();
+                for i in 0..k.min(4) {
+                    let pick_a = if sched[i] { pa + 1 <= pb + cap } else { !(pb + 1 <= pa + cap) };
+                    rec!((a.pending_frames(), b.pending_frames()), (pa.max(pb) - pa, pa.max(pb) - pb));
+                    if pick_a { rec!(a.next(), at(&data, pa)); pa += 1; } else { rec!(b.next(), at(&data, pb)); pb += 1; }
+                    rec!(ca.get(), pa.max(pb));
+                }
+            }
+        }
         _ => {}
     }
     (got.join(" | "), want.join(" | "))
@@ -305,6 +350,7 @@ const TARGETS: &[&str] = &[
     "OffsetAmpPerChannel::next", "Map::next", "ZipMap::next", "Inspect::next", "ClipAmp::next", "Delay::next",
     "RefMut::next", "FromIterator::next", "FromInterleavedSamplesIterator::next", "UntilExhausted::next",
     "Take::next", "IntoInterleavedSamples::next_sample", "Buffered::next", "Buffered::next_frames",
+    "BranchRefA::next", "BranchRcA::next",
 ];
 
 fn field<'a>(js: &'a str, k: &str) -> &'a str {
